@@ -58,6 +58,10 @@ def gen_scenario(rng, focus):
         if len({a.lower() for a in aliases}) != len(set(aliases)):
             violates_hyp = True      # two names differing only in case inside one datagram
         evs.append(('resp', t, recs))
+        if focus == 'C04' and rng.random() < 0.12:
+            # somebody else on the instance starts listening with a question (another browser, for a type nobody announces): since the repair
+            # 8ab9054 that reaps the expired records first - for the browser under test a cache cleanup that is not on the 10 s grid
+            evs.append(('listener2', t + rng.choice([1, 999, 5000, 130000, 1130000])))
         if focus == 'C10':
             t += rng.choice([3, 501, 1003, 9001, 20007, 60011, 400003, 843751 + 3, 900001, 1125007, 3375000 + 7, 4000003])
         else:
@@ -77,6 +81,15 @@ CORPUS_C10 = [
     dict(types=[T1], delay=1000, qnone=True, violates_hyp=False, horizon=3400000,
          events=[('browse', 0, 57), ('resp', 2250018, [rec('KPointer', T1, 12, 1, alias='X.' + T1, ttl=9000)]),
                  ('resp', 2250021, [rec('KPointer', T1, 12, 1, alias='x.' + T1, ttl=1125)])]),
+    # churn inside the no-reschedule window: learned, withdrawn and learned again within the inter-query delay, then left alone until it expires
+    dict(types=[T1], delay=10000, qnone=True, violates_hyp=False, horizon=4700000,
+         events=[('browse', 0, 20), ('resp', 30000, [rec('KPointer', T1, 12, 1, alias='x.' + T1, ttl=4500)]),
+                 ('resp', 36000, [rec('KPointer', T1, 12, 1, alias='x.' + T1, ttl=0)]),
+                 ('resp', 38000, [rec('KPointer', T1, 12, 1, alias='x.' + T1, ttl=4500)])]),
+    dict(types=[T1], delay=60000, qnone=False, violates_hyp=False, horizon=1300000,
+         events=[('browse', 0, 57), ('resp', 20000, [rec('KPointer', T1, 12, 1, alias='y.' + T1, ttl=1125)]),
+                 ('resp', 21000, [rec('KPointer', T1, 12, 1, alias='y.' + T1, ttl=0)]),
+                 ('resp', 50000, [rec('KPointer', T1, 12, 1, alias='y.' + T1, ttl=1125)])]),
 ]
 
 
@@ -143,7 +156,7 @@ def run_scenario(sc):
 
         def listen(self, listener, question):
             if question is not None:
-                begin(('listen', sim.now))
+                begin(('purge', sim.now) if state.get('second_listener') else ('listen', sim.now))
             orig_listen(self, listener, question)
 
         orig_resp = zrm.RecordManager.async_updates_from_response
@@ -210,6 +223,16 @@ def run_scenario(sc):
                         state['browser'] = AsyncServiceBrowser(b.zc, list(sc['types']), listener=Listener(), delay=sc['delay'],
                                                                question_type=None if sc['qnone'] else DNSQuestionType.QM)
                         out['browse_at'] = sim.now - t0
+                    elif ev[0] == 'listener2':
+                        from zeroconf import DNSQuestion, RecordUpdateListener
+
+                        class Other(RecordUpdateListener):
+                            def async_update_records(self, zc, now, records):
+                                pass
+                        state['second_listener'] = True
+                        b.zc.async_add_listener(Other(), DNSQuestion('_nobody._tcp.local.', 12, 1))
+                        state['second_listener'] = False
+                        check_live('second listener')
                     else:
                         data = build_response(ev[2])
                         # the label is logged when the record manager gets the message: a datagram byte-identical to the previous one
